@@ -261,7 +261,7 @@ func TestCacheConcurrent(t *testing.T) {
 		var mu sync.Mutex
 		var evs []Ev
 		log := func(e Ev) { mu.Lock(); e["now"] = int(clock.Load()); evs = append(evs, e); mu.Unlock() }
-		tts := [][][]int{{{2}, {0}}, {{0, 2}, {2}}, {{2, 1}, {2}}, {{3, 0, 2}, {0}}, {{}, {2}}, {{5, 5, 5, 5}, {5, 5, 5}}, {{5, 5, 5, 5}, {5, 5, 5}}}[r.Intn(7)]
+		tts := [][][]int{{{2}, {0}}, {{0, 2}, {2}}, {{2, 1}, {2}}, {{3, 0, 2}, {0}}, {{1}, {2}}, {{5, 5, 5, 5}, {5, 5, 5}}, {{5, 5, 5, 5}, {5, 5, 5}}}[r.Intn(7)]
 		z := &cacheZone{typ: []int{tA, tHTTPS, tAAAA}[r.Intn(3)], gen: map[string]int{"n1": 0, "n2": 0},
 			ttls: map[string][][]int{"n1": tts, "n2": {{2}, {2}}}, up: true, failSrv: r.Intn(2) == 0}
 		z.log = log
@@ -272,6 +272,10 @@ func TestCacheConcurrent(t *testing.T) {
 		G := []int{2, 3, 4}[r.Intn(3)]
 		if os.Getenv("VH_BIGG") != "" {
 			G = 16 // race-detector-only rounds: too many unlogged interleavings for trace validation
+			// cached entries that expire and are refreshed while other goroutines are reading them
+			tts = [][][]int{{{5, 5, 5, 5}, {5, 5, 5}}, {{3, 9, 2}, {4, 4}}}[round%2]
+			z.ttls["n1"] = tts
+			z.typ = []int{tHTTPS, tA, tAAAA}[round%3]
 		}
 		w.Write(Ev{"e": "reset", "scen": Ev{"ttls": tts, "G": G, "typ": z.typ}, "round": round})
 		for phase := 0; phase < 5; phase++ {
